@@ -436,8 +436,10 @@ func propC06(c *Ctx) {
 			}
 		}
 	}
-	// indexing follows list semantics, for every string and array of the pool and every small index (not sampled)
-	for _, a := range all {
+	// indexing follows list semantics, for every string and array of the pool and every small index (not sampled); strings
+	// with bytes that are no valid UTF-8 have the replacement character at those places (what ranging over them gives)
+	withBytes := append(append([]*variants.Variant(nil), all...), vStr("a\xe9b"), vStr("\xff"), vStr("ab\x80"), vStr("\xe4\xb8"), vStr("x\xf0\x9f\x98"), vStr("é\xe9"))
+	for _, a := range withBytes {
 		if a.Type() != variants.String && a.Type() != variants.Array {
 			continue
 		}
